@@ -1,7 +1,134 @@
 import ComposeVerif.Ops.Common
-/-! line-protocol ops for C03 (filled in by the property's owner) -/
+import ComposeVerif.Model.ShortTransform
+import ComposeVerif.Model.ShortDecode
+import ComposeVerif.Spec.Short
+/-! line-protocol ops for C03: short-syntax parsers, `transform.Canonical`, decoders, and the grammar specs -/
+open Lean
 namespace CV.Ops.C03
+open CV CV.Short CV.Short.Spec
 
-def handlers : List (String × Handler) := []
+def volJson (v : Vol) : Json :=
+  Json.mkObj [("type", str v.type), ("source", str v.source), ("target", str v.target), ("read_only", Json.bool v.readOnly),
+    ("bind", match v.bind with
+      | none => Json.null
+      | some b => Json.mkObj [("selinux", str b.selinux), ("propagation", str b.propagation), ("create_host_path", Json.bool b.createHostPath)]),
+    ("volume", match v.volume with | none => Json.null | some nc => Json.mkObj [("nocopy", Json.bool nc)])]
+
+def portJson (p : PortCfg) : Json :=
+  Json.mkObj [("host_ip", str p.hostIP), ("target", Json.num p.target), ("published", str p.published), ("protocol", str p.protocol)]
+
+def parseVolumeOp : Handler := fun args =>
+  match parseVolume (getStr args "s").toList with
+  | some v => Json.mkObj [("ok", volJson v)]
+  | none => Json.mkObj [("err", "parse")]
+
+def parsePortOp : Handler := fun args =>
+  match parsePort (getStr args "s").toList with
+  | some l => Json.mkObj [("ok", Json.arr (l.map portJson).toArray)]
+  | none => Json.mkObj [("err", "parse")]
+
+def outVal : Out Val → Json
+  | .ok v => Json.mkObj [("ok", v.toJson)]
+  | .err e => Json.mkObj [("err", e)]
+  | .panic s => Json.mkObj [("panic", s)]
+
+def canonicalOp : Handler := fun args =>
+  match Val.ofJson (getObj args "tree") with
+  | .ok v =>
+    match canonical (getBool args "ign") v with
+    | .ok r => Json.mkObj [("ok", r.toJson)]
+    | _ => Json.mkObj [("fails", Json.arr ((fails (getBool args "ign") TPath.root v).map Json.str).toArray)]
+  | .error e => Json.mkObj [("bad", e)]
+
+/-- `Canonical(Canonical(v))` -/
+def canonical2Op : Handler := fun args =>
+  match Val.ofJson (getObj args "tree") with
+  | .ok v =>
+    match canonical (getBool args "ign") v with
+    | .ok v1 => outVal (canonical (getBool args "ign") v1)
+    | o => outVal o
+  | .error e => Json.mkObj [("bad", e)]
+
+def decodeOp : Handler := fun args =>
+  match Val.ofJson (getObj args "v") with
+  | .error e => Json.mkObj [("bad", e)]
+  | .ok v =>
+    let r : Option (Option Val) := match getStr args "type" with
+      | "Mapping" => some (decodeMapping v)
+      | "MappingWithEquals" => some (decodeMWE v)
+      | "Labels" => some (decodeLabels v)
+      | "HostsList" => some (decodeHosts v)
+      | "StringList" => some (decodeStringList v)
+      | "StringOrNumberList" => some (decodeStringOrNumberList v)
+      | "HealthCheckTest" => some (decodeHealthTest v)
+      | "Options" => some (decodeOptions v)
+      | "DeviceCount" => some (decodeDeviceCount v)
+      | "UlimitsConfig" => some (decodeUlimit v)
+      | _ => none
+    match r with
+    | none => Json.mkObj [("bad", "type")]
+    | some none => Json.mkObj [("err", "decode")]
+    | some (some .null) => Json.mkObj [("panic", "decode")]
+    | some (some r) => Json.mkObj [("ok", r.toJson)]
+
+def pathCleanOp : Handler := fun args => Json.mkObj [("ok", str (pathClean (getStr args "s").toList))]
+def validIPOp : Handler := fun args => Json.mkObj [("ok", Json.bool (validIP (getStr args "s").toList))]
+
+/-! ### grammar ASTs from the wire -/
+
+def optObj (j : Json) (k : String) : Option Json :=
+  match j.getObjVal? k with
+  | .ok .null => none
+  | .ok v => some v
+  | .error _ => none
+
+def numOf (j : Json) : Num := { zeros := getNat j "z", val := getNat j "v" }
+def rangeOf (j : Json) : Range := { lo := numOf (getObj j "lo"), hi := (optObj j "hi").map numOf }
+
+def portSpecOf (j : Json) : PortSpec :=
+  { ip := (optObj j "ip").map fun i => { bracket := getBool i "bracket", addr := (getStr i "addr").toList }
+    host := (optObj j "host").map rangeOf
+    cont := rangeOf (getObj j "cont")
+    proto := match j.getObjVal? "proto" with | .ok (.str s) => some s.toList | _ => none }
+
+def segOf (j : Json) : Seg :=
+  match j.getObjVal? "plain" with
+  | .ok (.str s) => .plain s.toList
+  | _ => .drive ((getStr j "drive").toList.headD 'c') (getStr j "rest").toList
+
+def flagOf (s : String) : Flag :=
+  if s = "ro" then .ro else if s = "rw" then .rw else if s = "nocopy" then .nocopy
+  else if s = "z" then .z else if s = "Z" then .Z
+  else if s.startsWith "prop:" then
+    match (String.ofList (s.toList.drop 5)).toNat? with
+    | some n => if h : n < 6 then .prop ⟨n, h⟩ else .other s.toList
+    | none => .other s.toList
+  else .other (s.toList.drop 6)      -- "other:<text>"
+
+def volSpecOf (j : Json) : VolSpec :=
+  { source := (optObj j "source").map segOf
+    target := segOf (getObj j "target")
+    flags := (getStrList j "flags").map flagOf }
+
+def portSpecOp : Handler := fun args =>
+  let a := portSpecOf (getObj args "ast")
+  Json.mkObj [("wf", Json.bool a.wf), ("rendered", str a.render), ("long", Json.arr (a.long.map portJson).toArray)]
+
+def volSpecOp : Handler := fun args =>
+  let a := volSpecOf (getObj args "ast")
+  Json.mkObj [("wf", Json.bool a.wf), ("rendered", str a.render), ("long", volJson a.long),
+    ("clean_target", str (cleanTarget a.long.target)), ("is_path", Json.bool (isPath a.source))]
+
+def devSpecOp : Handler := fun args =>
+  let j := getObj args "ast"
+  let optS (k : String) : Option Str := match j.getObjVal? k with | .ok (.str s) => some s.toList | _ => none
+  let a : DevSpec := { src := (getStr j "src").toList, dst := optS "dst", perm := optS "perm" }
+  let (s, d, p) := a.long
+  Json.mkObj [("wf", Json.bool a.wf), ("rendered", str a.render), ("long", Json.mkObj [("source", str s), ("target", str d), ("permissions", str p)])]
+
+def handlers : List (String × Handler) := [
+  ("c03.parseVolume", parseVolumeOp), ("c03.parsePort", parsePortOp), ("c03.canonical", canonicalOp),
+  ("c03.canonical2", canonical2Op), ("c03.decode", decodeOp), ("c03.pathClean", pathCleanOp), ("c03.validIP", validIPOp),
+  ("c03.portSpec", portSpecOp), ("c03.volSpec", volSpecOp), ("c03.devSpec", devSpecOp)]
 
 end CV.Ops.C03
